@@ -386,6 +386,12 @@ func (a *Analyzer) runFunc(ctx int, fn *ssa.Function, entry *State, depth int) [
 				if _, ok := instr.(*ssa.Phi); ok {
 					continue
 				}
+				if a.Hook != nil {
+					// rule hooks see every disjunct, before any merging
+					for _, st := range cur {
+						a.Hook(&Handle{A: a, Ctx: ctx, Instr: instr, S: st})
+					}
+				}
 				if call, ok := instr.(*ssa.Call); ok && len(cur) > 2 && a.heavyCallee(&call.Call) {
 					// callees with loops are analysed once per pair of
 					// incoming disjuncts, not once per disjunct
@@ -393,9 +399,6 @@ func (a *Analyzer) runFunc(ctx int, fn *ssa.Function, entry *State, depth int) [
 				}
 				var next []*State
 				for _, st := range cur {
-					if a.Hook != nil {
-						a.Hook(&Handle{A: a, Ctx: ctx, Instr: instr, S: st})
-					}
 					next = append(next, a.exec(ctx, instr, st, depth)...)
 				}
 				cur = next
